@@ -12,6 +12,7 @@ import AcVerif.Engine.Gates
 import AcVerif.Engine.Replace
 import AcVerif.Engine.Stream
 import AcVerif.Packed.Model
+import AcVerif.Packed.Vector
 import AcVerif.Pre.Builder
 import AcVerif.Cost
 import AcVerif.Compiler
@@ -363,7 +364,11 @@ def answerPacked (r : Req) (variant : String) : String :=
       let en := r.natD "e" hay.length
       if !(st ≤ en && en ≤ hay.length) then "bad-request:span"
       else match r.getD "api" "find" with
-        | "find" => fmtOpt (s.findIn hay st en)
+        | "find" =>
+          -- the vector-level transcription answers; the lane-level model (about which C06 is proved) must agree
+          let v := s.findInV hay st en
+          let l := s.findIn hay st en
+          fmtOpt v ++ (if v == l then "" else s!" MODEL-SPEC-MISMATCH lane-model={fmtOpt l}")
         | "iter" => fmtList ((s.iter hay (hay.length + 2) 0).map fmtMat)
         | "minlen" => toString s.minimumLen
         | _ => "bad-api"
